@@ -2,11 +2,13 @@
 whole-session SIGKILL afterwards; parses the per-actor event files.  No pipes are ever attached to
 a process that can leak daemon children."""
 import concurrent.futures
+import fcntl
 import json
 import os
 import shutil
 import signal
 import subprocess
+import random
 import time
 
 from lib.common import REPO, VERIF, WORK, PY
@@ -25,7 +27,39 @@ def extras_env(pool):
     return ','.join(ex)
 
 
+class _Slot:
+    """machine-wide bound on concurrently running driver processes (all checks together): several checks started in
+    parallel share VERIF_SLOTS slots instead of oversubscribing the cores - the latency oracles stay meaningful"""
+    def __enter__(self):
+        d = os.path.join(WORK, 'slots')
+        os.makedirs(d, exist_ok=True)
+        n = int(os.environ.get('VERIF_SLOTS', '20'))
+        order = list(range(n))
+        random.shuffle(order)
+        while True:
+            for i in order:
+                fh = open(os.path.join(d, 'slot%d' % i), 'w')
+                try:
+                    fcntl.flock(fh, fcntl.LOCK_EX | fcntl.LOCK_NB)
+                    self.fh = fh
+                    return self
+                except OSError:
+                    fh.close()
+            time.sleep(0.05)
+
+    def __exit__(self, *a):
+        try:
+            fcntl.flock(self.fh, fcntl.LOCK_UN)
+        finally:
+            self.fh.close()
+
+
 def run_one(scen, rundir, hook=True):
+    with _Slot():
+        return _run_one(scen, rundir, hook)
+
+
+def _run_one(scen, rundir, hook=True):
     os.makedirs(rundir, exist_ok=True)
     evdir = os.path.join(rundir, 'events')
     os.makedirs(evdir, exist_ok=True)
@@ -157,7 +191,8 @@ def calibrate(start_methods=('fork', 'threading', 'forkserver', 'spawn')):
     the latency oracles are scaled with it so that a loaded machine does not turn into alarms"""
     scens = [{'id': 'cal_' + sm, 'pool': {'n_jobs': 2, 'start_method': sm}, 'budget': 120,
               'calls': [{'kind': 'map', 'n': 4, 'input': 'list', 'elem': 'scalar', 'params': {}, 'base': 0}]} for sm in start_methods]
-    recs = run_many(scens, 'calibrate', jobs=len(scens))
+    recs = run_many(scens, 'calibrate_%d' % os.getpid(), jobs=len(scens))
+    shutil.rmtree(os.path.join(WORK, 'runs', 'calibrate_%d' % os.getpid()), ignore_errors=True)
     out = {}
     for sm, r in zip(start_methods, recs):
         try:
